@@ -207,6 +207,13 @@ class LayoutRules:
         viol_sites = {(v['file'], v['line'], v['rule']): v for v in p.viol}
         for it in p.items:
             if it.kind == 'pad':
+                # a skip done by reading into / writing out of a local scratch buffer is still a copy that must fit the buffer
+                if isinstance(it.extra, dict) and it.extra.get('buffer') and bound_rule in rules:
+                    rep.count(bound_rule)
+                    v = viol_sites.get((it.file, it.line, bound_rule))
+                    rep.ob(bound_rule, '%s|%s' % (short(it.fn), it.extra['buffer']), v is None, self.site(it),
+                           ('%s: %s' % (short(it.fn), v['what'])) if v else '%s: %r bytes within the local buffer %s' % (short(it.fn), it.width, it.extra['buffer']),
+                           nontrivial=True)
                 continue
             rep.analysed['call_sites'] += 1
             name = fmt_path(it.path) if it.path is not None else (it.extra.get('name', 'local') if isinstance(it.extra, dict) else 'signature')
